@@ -574,6 +574,8 @@ def run_inner(rep):
         raise common.MachineryError("cargo build failed: " + out[-2000:])
     first = run_impl([{"op": "schema"}, {"op": "pool", "n": 8}])
     dump, pool = first[0], first[1]
+    POOL.clear()
+    POOL.update(pool)
     # 3a. translator view == linked descriptors
     schema_diff = []
     mine, theirs = descriptor_view(info["prod"]), descriptor_view_rust(dump["real"])
@@ -967,17 +969,89 @@ def build_cases(rng, tier, pool):
     return cases, checks
 
 
+MODELLED2 = {
+    "validator.ProposalJustification": "T2Justification", "validator.LeaderProposal": "T2LeaderProposal",
+    "validator.ReplicaNewView": "T2NewView", "validator.ChonkyMsg": "T2Chonky", "validator.ConsensusMsg": "T2ConsensusMsg",
+    "validator.Msg": "T2Msg", "validator.Signed.consensus": "T2SignedConsensus",
+    "validator.Signed.net_address": "T2SignedNetAddress", "validator.Signed.session_id": "T2SignedSessionId",
+    "validator.FinalBlock": "T2FinalBlock", "validator.PreGenesisBlock": "T2PreGenesis", "validator.Block": "T2Block",
+    "validator.Proposal": "T2Proposal", "validator.Phase": "T2Phase", "validator.ChonkyV2State": "T2State",
+    "validator.ReplicaState": "T2ReplicaState", "validator.ValidatorInfo": "T2ValidatorInfo",
+    "validator.LeaderSelectionMode": "T2Mode", "validator.LeaderSelection": "T2Selection", "validator.Schedule": "T2Schedule",
+    "validator.GenesisRaw": "T2Genesis", "validator.Genesis": "T2Genesis", "validator.NetAddress": "T2NetAddress",
+    "validator.PublicKey": "T2VPublicKey", "validator.Signature": "T2VSignature", "validator.AggregateSignature": "T2AggSignature",
+    "validator.MsgHash": "T2Hash", "validator.GenesisHash": "T2Hash", "validator.PayloadHash": "T2Hash",
+    "node.Msg": "T2NodeMsg", "node.PublicKey": "T2NodePublicKey", "node.Signature": "T2NodeSignature", "node.Signed": "T2NodeSigned",
+    "gossip.Handshake": "T2GossipHandshake", "consensus.Handshake": "T2ConsensusHandshake",
+    "preface.Encryption": "T2Encryption", "preface.Endpoint": "T2Endpoint",
+    "rpc.consensus.Req": "T2ConsensusReq", "rpc.consensus.Resp": "T2ConsensusResp", "rpc.get_block.Req": "T2GetBlockReq",
+    "rpc.get_block.Resp": "T2GetBlockResp", "rpc.push_block_store_state.Req": "T2PushStoreState",
+    "rpc.push_validator_addrs.Req": "T2PushAddrs", "rpc.push_tx.Req": "T2PushTx", "rpc.ping.Req": "T2Ping", "rpc.ping.Resp": "T2Ping",
+}
+POOL = {}
+
+
+def patch(entries, path, value):
+    """entries with the value at the field-number path replaced"""
+    out = []
+    done = False
+    for (n, v) in entries:
+        if n == path[0] and not done:
+            done = True
+            v = value if len(path) == 1 else ("msg", patch(v[1], path[1:], value))
+        out.append((n, v))
+    return out
+
+
+def edge2_cases(rng, sc, n):
+    """boundary values of the part-2 types: schedules (duplicates, zero weights, overflow, no leader, unsorted),
+    genesis protocol versions, justification view numbers at u64::MAX"""
+    gen = Gen(sc, rng, POOL)
+    cases = []
+    for _ in range(n):
+        m = rng.range(0, 5)
+        ks = [rng.choice(POOL["vpub"]) for _ in range(m)] if rng.chance(1, 4) else rng.shuffle(POOL["vpub"])[:m]
+        vals = []
+        for k in ks:
+            w = rng.choice([1, 1, 2, 5, 0, 1 << 63, U64 - 1, 1 << 40])
+            vals.append((1, ("msg", [(1, ("msg", [(1, ("len", bytes.fromhex(k)))])), (2, ("var", w)), (3, ("var", rng.choice([0, 1, 1, 2])))])))
+        sel = ("msg", [(1, ("var", gen.u64())), (2, ("msg", [(rng.choice([1, 3]), ("msg", []))]))])
+        sched = vals + [(2, sel)]
+        cases.append({"op": "rt", "ty": "validator.Schedule", "kind": "edge",
+                      "hex": canon(sc, "zksync.roles.validator.ValidatorSchedule", sched).hex()})
+        g = [(5, ("var", gen.u64())), (6, ("var", gen.u64())), (7, ("var", gen.u64())),
+             (8, ("var", rng.choice([2, 2, 2, 0, 1, 3, (1 << 32) + 2, U64 - 1])))]
+        if rng.chance(2, 3):
+            g.append((10, ("msg", sched)))
+        if rng.chance(1, 10):
+            g = g[1:]
+        cases.append({"op": "rt", "ty": rng.choice(["validator.Genesis", "validator.GenesisRaw"]), "kind": "edge",
+                      "hex": canon(sc, "zksync.roles.validator.Genesis", g).hex()})
+        num = rng.choice([U64 - 1, U64 - 2, 0])
+        q = gen.message("zksync.roles.validator.CommitQCV2", 0, None, 0)
+        q = patch(q, [1, 1, 2], ("var", num))
+        cases.append({"op": "rt", "ty": "validator.ProposalJustification", "kind": "edge",
+                      "hex": canon(sc, "zksync.roles.validator.ProposalJustificationV2", [(1, ("msg", q))]).hex()})
+        t = gen.message("zksync.roles.validator.TimeoutQCV2", 0, None, 0)
+        t = patch(t, [1, 2], ("var", num))
+        cases.append({"op": "rt", "ty": "validator.ReplicaNewView", "kind": "edge",
+                      "hex": canon(sc, "zksync.roles.validator.ReplicaNewViewV2",
+                                   [(1, ("msg", [(2, ("msg", t))]))]).hex()})
+    return cases
+
+
 def typed_correspondence(rep, sc, items, routs, rt_cases, bcases, bouts):
-    """Model.ProtoTyped.run_rt_case on every decode of a modelled type (+ std edge stream + the
-    encodings produced by the typed constructions)."""
+    """Model.ProtoTyped.run_rt_case / ProtoTyped2.run_rt_case2 on every decode of a modelled type
+    (+ edge streams + the encodings produced by the typed constructions)."""
     rng = Rng(rep.seed ^ 0xC09)
     cases = []
     for c, o in zip(rt_cases, routs):
-        if c["ty"] in MODELLED:
+        if c["ty"] in MODELLED or c["ty"] in MODELLED2:
             cases.append((c, o))
     edge = std_edge_cases(rng, 150 if rep.tier == "quick" else 1000)
+    edge += edge2_cases(rng, sc, 40 if rep.tier == "quick" else 400)
     for c, o in zip(bcases, bouts):
-        if c["ty"] in MODELLED and "ok" in o:
+        if (c["ty"] in MODELLED or c["ty"] in MODELLED2) and "ok" in o:
             edge.append({"op": "rt", "ty": c["ty"], "hex": o["ok"], "kind": "built"})
     eouts = run_impl(edge)
     viol = []
@@ -989,22 +1063,34 @@ def typed_correspondence(rep, sc, items, routs, rt_cases, bcases, bouts):
             viol.append({"failed": "decode / re-encode panicked", "ty": c["ty"], "hex": c["hex"], "impl": o})
     for v in viol[:3]:
         rep.violation("wire encoding violates C09 on the implementation: " + v["failed"], {"failing_input": v})
-    coq_cases = []
+    coq1, coq2 = [], []
     for i, (c, o) in enumerate(cases):
         if "ok" in o:
             exp = f'(OL [OZ 0; obs_hex "{o["ok"]}"])'
         elif "panic" in o:
-            exp = "(OL [OZ 2; OZ %d])" % (1 if "overflow" in o["panic"] else 99)
+            exp = "(OL [OZ 2; OZ %d])" % (1 if "overflow" in o["panic"] else (5 if "unreachable" in o["panic"] else 99))
         else:
             exp = "(OL [OZ 1])"
-        coq_cases.append((i, f'({MODELLED[c["ty"]]}, "{c["hex"]}")', exp))
+        if c["ty"] in MODELLED:
+            coq1.append((i, f'({MODELLED[c["ty"]]}, "{c["hex"]}")', exp))
+        else:
+            coq2.append((i, f'({MODELLED2[c["ty"]]}, "{c["hex"]}")', exp))
     sample_ids = [0, len(cases) // 2, len(cases) - 1]
     mm, samp = common.run_model_cases(
         "C09typed", "From EC Require Import Model.Wire Model.ProtoSchema Model.ProtoTyped.\nOpen Scope string_scope.",
-        "Model.ProtoTyped.run_rt_case", coq_cases, shard_size=max(20, len(coq_cases) // 64 + 1), sample_ids=sample_ids, timeout=3000)
+        "Model.ProtoTyped.run_rt_case", coq1, shard_size=max(20, len(coq1) // 48 + 1), sample_ids=sample_ids, timeout=3000)
+    mm2, samp2 = common.run_model_cases(
+        "C09typed2", "From EC Require Import Model.Wire Model.ProtoSchema Model.ProtoTyped Model.ProtoTyped2.\nOpen Scope string_scope.",
+        "Model.ProtoTyped2.run_rt_case2", coq2, shard_size=max(20, len(coq2) // 48 + 1), sample_ids=sample_ids, timeout=3000)
+    mm.update(mm2)
+    samp.update(samp2)
     mism = [{"case": cases[i][0], "impl": cases[i][1], "model_obs": m} for i, m in sorted(mm.items())]
     samples = [{"case": cases[i][0], "impl": cases[i][1], "model_obs": samp.get(i)} for i in sample_ids if i < len(cases)]
-    return mism, samples, len(coq_cases)
+    by_type = {}
+    for c, _ in cases:
+        by_type[c["ty"]] = by_type.get(c["ty"], 0) + 1
+    rep.cov["typed_cases_by_type"] = by_type
+    return mism, samples, len(coq1) + len(coq2)
 
 
 def replay(path):
